@@ -524,7 +524,7 @@ def _(c):
         me, m = h0.pos(s), (h0.clen(s) if keep(x) else 0)
         n_op = h0.clen(h0._parent(s))
         at = lambda k: And(0 <= k, k < x.h.llen(lst), x.h.litem(lst, k) == s)  # noqa: E731
-        return If(x.h.llen(lst) == n_op, at(me), at(me + m))  # before / after the splice
+        return Or(at(me), at(me + m))  # before / after the splice (either order of splicing around self is fine)
 
     c.call_hints["_index_of"] = hint_index_of
 
